@@ -19,7 +19,7 @@ func init() {
 	Register(&Rule{
 		ID:    "R-APPENDONLY",
 		Doc:   "in every json encoder function (encoder methods, encodeFunc closures, Append and the append* helpers they pass the buffer to): the destination is written only by append / append-style callees, or by index/copy/Encode at an offset with lower bound len(dst)+k, k>=0; every reslice b[:k] has k >= a len(dst) snapshot",
-		Props: []string{"C15", "C10"},
+		Props: []string{"C15", "C10", "C06", "C01"},
 		Min:   map[string]int{"C15": 40},
 		Run:   runAppendOnly,
 	})
@@ -404,13 +404,13 @@ func runAppendOnly(c *core.Ctx) []core.Obligation {
 				}
 				switch {
 				case len(ensured) == 0:
-					b.bad(key, c.InstrPos(sl), fmt.Sprintf("%s extends the destination to len+(%s) by reslicing without ensuring spare capacity: panics (slice bounds out of range) when cap(dst)-len(dst) is smaller", name, grow))
+					b.addP([]string{"C15", "C06", "C01"}, core.Violation, key, c.InstrPos(sl), fmt.Sprintf("%s extends the destination to len+(%s) by reslicing without ensuring spare capacity: panics (slice bounds out of range) when cap(dst)-len(dst) is smaller", name, grow))
 				case !same:
 					var es []string
 					for _, e := range ensured {
 						es = append(es, e.String())
 					}
-					b.bad(key, c.InstrPos(sl), fmt.Sprintf("%s extends the destination by %s bytes but the capacity test only ensures %v: for spare capacities in between, the reslice panics", name, grow, es))
+					b.addP([]string{"C15", "C06", "C01"}, core.Violation, key, c.InstrPos(sl), fmt.Sprintf("%s extends the destination by %s bytes but the capacity test only ensures %v: for spare capacities in between, the reslice panics", name, grow, es))
 				default:
 					b.ok(key, c.InstrPos(sl), "growth by "+grow.String()+" bytes after a capacity test on the same amount")
 				}
